@@ -165,18 +165,22 @@ def run_unit(unit, rlimit=40, extra_args=(), text_override=None, tag=None):
 
     # obligations table
     obl = {}
+    sp = set(meta.get("safety_props") or [])
     for f in meta["functions"]:
         fid = f["id"]
+        # implicit safety obligations (panic freedom, overflow, bounds) count for the
+        # unit's declared safety properties when the function serves one of them
+        f_safety = [p_ for p_ in f["serves"] if p_ in sp] or f["serves"]
         for lab, info in f["labels"].items():
             obl[(fid, lab)] = dict(fn=fid, label=lab, props=info["props"], kind=info["kind"], ok=True, msg=None)
-        obl[(fid, "body_safe")] = dict(fn=fid, label="body_safe", props=f["serves"], kind="implicit", ok=True, msg=None)
+        obl[(fid, "body_safe")] = dict(fn=fid, label="body_safe", props=f_safety, kind="implicit", ok=True, msg=None)
         a, b = fn_ranges[fid]
         k = 0
         for ln in sorted(panic_lines):
             if a <= ln <= b:
                 k += 1
                 obl[(fid, "panic_site_%d_unreachable" % k)] = dict(
-                    fn=fid, label="panic_site_%d_unreachable" % k, props=f["serves"], kind="panic", ok=True, msg=None, line=ln)
+                    fn=fid, label="panic_site_%d_unreachable" % k, props=f_safety, kind="panic", ok=True, msg=None, line=ln)
         # named call-site preconditions
         ftext = "\n".join(lines[a - 1:b])
         for ln, (plab, callee) in pl_lines.items():
